@@ -29,7 +29,8 @@ def store(root="/tmp/seed3", offset=2, rnd=3):
             json.dump(am, open(os.path.join(dst, "agent_meta.json"), "w"), indent=1)
             meta = {"id": sid, "property": P, "round": rnd, "summary": am.get("summary"), "needs_to_manifest": am.get("needs_to_manifest"), "files_changed": am.get("files_changed"),
                     "written_by": "independent sub-agent given only the property text and a scratch worktree (round 3: three changes per property, asked for state leaks, boundary inputs, histories; "
-                                  "round 4: value-level defects on degenerate cases, sizes beyond the tests, unusual argument types, tolerance misuse, two-step sequences)",
+                                  "round 4: value-level defects on degenerate cases, sizes beyond the tests, unusual argument types, tolerance misuse, two-step sequences; "
+                                  "round 5: personas generaliser / over-corrector / maintainer; round 6: COMBINATION defects that need two or three independent features to coincide)",
                     "confirmed_by_me": {"scratch_worktree": "git worktree of /repo HEAD under /tmp/sv2 (removed afterwards)", "demo_on_clean_tree_exit": res["demo_clean_exit"],
                                         "patch_applies_with_git_apply": True, "demo_with_patch_exit": res["demo_patched_exit"], "baseline_tests_lost_with_patch": 0,
                                         "commands": ["SEED_SRC=<wt>/src /venv/bin/python demo.py", "git apply patch.diff", "PYTHONPATH=<wt>/src /venv/bin/python -m pytest ... --junitxml; tools/junit_cmp.py"]}}
@@ -51,8 +52,8 @@ def one(sid):
     return sid, out
 
 
-def evaluate():
-    sids = sorted(x for x in os.listdir(SD) if os.path.isdir(os.path.join(SD, x)))
+def evaluate(only=None):
+    sids = sorted(x for x in os.listdir(SD) if os.path.isdir(os.path.join(SD, x)) and (not only or x in only))
     rows = []
     commit = subprocess.run(["git", "-C", ROOT, "rev-parse", "--short", "HEAD"], capture_output=True, text=True).stdout.strip()
     with cf.ThreadPoolExecutor(int(os.environ.get("JOBS", "12"))) as ex:
@@ -67,6 +68,10 @@ def evaluate():
             json.dump(meta, open(mp, "w"), indent=1)
             rows.append([sid, meta["caught"], {p: v["violations"][:3] for p, v in out.items() if v["n_violations"]}])
             print(sid, "caught" if meta["caught"] else "MISSED", rows[-1][2], flush=True)
+    if only:
+        old = {r[0]: r for r in json.load(open(os.path.join(SD, "SUMMARY.json")))}
+        old.update({r[0]: r for r in rows})
+        rows = [old[k] for k in sorted(old)]
     json.dump(rows, open(os.path.join(SD, "SUMMARY.json"), "w"), indent=1)
     print(sum(1 for r in rows if r[1]), "of", len(rows), "caught")
 
@@ -75,4 +80,4 @@ if __name__ == "__main__":
     if sys.argv[1] == "store":
         store(*(sys.argv[2:3] or ["/tmp/seed3"]), offset=int(sys.argv[3]) if len(sys.argv) > 3 else 2, rnd=int(sys.argv[4]) if len(sys.argv) > 4 else 3)
     else:
-        evaluate()
+        evaluate(set(sys.argv[2:]))
